@@ -83,6 +83,10 @@ def class_by_name(spec, name):
     for c in spec['classes']:
         if c['name'] == name:
             return c
+    # classes of another spec that this one builds on (a shared "library" base class)
+    for c in spec.get('imported') or ():
+        if c['name'] == name:
+            return c
     raise KeyError(name)
 
 
@@ -291,7 +295,7 @@ def spec_source(spec):
 class Namespace:
     """The classes built from one spec."""
 
-    def __init__(self, spec):
+    def __init__(self, spec, parent=None):
         self.spec = spec
         self.uid = spec['uid']
         self.source = spec_source(spec)
@@ -300,8 +304,15 @@ class Namespace:
         linecache.cache[self.filename] = (
             len(self.source), None, self.source.splitlines(True), self.filename)
         self.globals = {'_sim': seam, '__name__': 'simgen_' + self.uid}
+        # a spec may build on class OBJECTS of another one (spec['imported']):
+        # they are in scope while this spec's classes are defined
+        self.imported = OrderedDict()
+        for c in spec.get('imported') or ():
+            self.imported[c['name']] = parent.classes[c['name']]
+            self.globals[c['name']] = parent.classes[c['name']]
         exec(code, self.globals)
-        self.classes = OrderedDict(
+        self.classes = OrderedDict(self.imported)
+        self.classes.update(
             (c['name'], self.globals[c['name']]) for c in spec['classes'])
         self.alien = self.globals['Alien']
         for c in spec['classes']:
@@ -311,7 +322,8 @@ class Namespace:
 
     def registered(self, order=None):
         """Registered classes, in spec order or the given name order."""
-        names = [c['name'] for c in self.spec['classes'] if c.get('registered', True)]
+        names = [c['name'] for c in (list(self.spec.get('imported') or ()) + self.spec['classes'])
+                 if c.get('registered', True)]
         if order is not None:
             names = [n for n in order if n in names] + [n for n in names if n not in order]
         return [self.classes[n] for n in names]
